@@ -283,7 +283,9 @@ func c05AttrPool() []c05Attr {
 		return b
 	}
 	return []c05Attr{
-		{"image", func(r *rand.Rand, i int, pa func(string) string, _ map[string]string, _ string) any { return "img-" + s(i) }},
+		{"image", func(r *rand.Rand, i int, pa func(string) string, _ map[string]string, _ string) any {
+			return "img-" + s(i)
+		}},
 		{"command", func(r *rand.Rand, i int, pa func(string) string, _ map[string]string, _ string) any {
 			return either(r, []any{"run", s(i)}, "run "+s(i))
 		}},
@@ -299,8 +301,12 @@ func c05AttrPool() []c05Attr {
 		{"ports", func(r *rand.Rand, i int, pa func(string) string, _ map[string]string, _ string) any {
 			return either(r, []any{"80" + s(i) + ":80"}, []any{map[string]any{"target": 80 + i, "published": "81" + s(i)}})
 		}},
-		{"expose", func(r *rand.Rand, i int, pa func(string) string, _ map[string]string, _ string) any { return []any{"90" + s(i)} }},
-		{"cap_add", func(r *rand.Rand, i int, pa func(string) string, _ map[string]string, _ string) any { return []any{"CAP_" + s(i)} }},
+		{"expose", func(r *rand.Rand, i int, pa func(string) string, _ map[string]string, _ string) any {
+			return []any{"90" + s(i)}
+		}},
+		{"cap_add", func(r *rand.Rand, i int, pa func(string) string, _ map[string]string, _ string) any {
+			return []any{"CAP_" + s(i)}
+		}},
 		{"dns", func(r *rand.Rand, i int, pa func(string) string, _ map[string]string, _ string) any {
 			return either(r, "10.0.0."+s(i), []any{"10.0.0." + s(i)})
 		}},
@@ -348,10 +354,16 @@ func c05AttrPool() []c05Attr {
 		{"depends_on", func(r *rand.Rand, i int, pa func(string) string, _ map[string]string, _ string) any {
 			return either(r, []any{"dep"}, map[string]any{"dep2": map[string]any{"condition": "service_healthy"}})
 		}},
-		{"hostname", func(r *rand.Rand, i int, pa func(string) string, _ map[string]string, _ string) any { return "h-" + s(i) }},
-		{"shm_size", func(r *rand.Rand, i int, pa func(string) string, _ map[string]string, _ string) any { return s(64+i) + "m" }},
+		{"hostname", func(r *rand.Rand, i int, pa func(string) string, _ map[string]string, _ string) any {
+			return "h-" + s(i)
+		}},
+		{"shm_size", func(r *rand.Rand, i int, pa func(string) string, _ map[string]string, _ string) any {
+			return s(64+i) + "m"
+		}},
 		{"privileged", func(r *rand.Rand, i int, pa func(string) string, _ map[string]string, _ string) any { return i%2 == 0 }},
-		{"working_dir", func(r *rand.Rand, i int, pa func(string) string, _ map[string]string, _ string) any { return "/w-" + s(i) }},
+		{"working_dir", func(r *rand.Rand, i int, pa func(string) string, _ map[string]string, _ string) any {
+			return "/w-" + s(i)
+		}},
 		{"develop", func(r *rand.Rand, i int, pa func(string) string, _ map[string]string, _ string) any {
 			return map[string]any{"watch": []any{map[string]any{"action": "rebuild", "path": pa("./w-" + s(i))}}}
 		}},
